@@ -7,6 +7,7 @@ namespace jv {
 
 Scheduler* g_sched = nullptr;
 void (*g_yield_extra)(void) = nullptr;
+thread_local uint64_t tl_hook_calls = 0;
 static thread_local int tl_task = -1;
 
 void sched_callback_yield() { if (g_sched && tl_task >= 0) g_sched->yield_point(1); }
@@ -79,6 +80,7 @@ Scheduler::~Scheduler() { for (auto t : tasks) { sem_destroy(&t->sem); delete t;
 
 // H1: the library's weak hook binds to this definition (the executable is linked -rdynamic).
 extern "C" __attribute__((visibility("default"))) void embedded_pairing_verif_yield(void) {
+    jv::tl_hook_calls++;
     if (!jv::g_yield_extra && !jv::g_sched) return;
     jv::OutOfLib out;
     if (jv::g_yield_extra) jv::g_yield_extra();
